@@ -11,7 +11,10 @@ S=/verif/seeded/$SEED
 R=/tmp/sr-$SEED-$PROP
 rm -rf $R; mkdir -p $R
 git -C /repo worktree add -q --detach $R/repo HEAD || exit 9
-git -C $R/repo apply $S/patch.diff || { echo "patch does not apply"; git -C /repo worktree remove --force $R/repo; exit 9; }
+# the seeds were authored on the original snapshot; /repo has since received hook and fix commits, so fall back to a
+# fuzzy apply where only the context moved (recorded in runs.log)
+FUZZ=""
+git -C $R/repo apply $S/patch.diff 2>/dev/null || { (cd $R/repo && patch -p1 -F3 --no-backup-if-mismatch < $S/patch.diff > $R/patch.log 2>&1) && FUZZ=" (applied with patch -F3)" || { echo "=== $(date -u +%FT%TZ) seed=$SEED patch does not apply on the current /repo HEAD" >> $S/runs.log; git -C /repo worktree remove --force $R/repo; rm -rf $R; exit 9; }; }
 rsync -a --exclude .build --exclude .build2 --exclude out --exclude .git --exclude seeded --exclude evidence /verif/ $R/verif/
 sed -i "s|\"/repo/src|\"$R/repo/src|g" $R/verif/kani/src/lib.rs $R/verif/astgen/src/main.rs
 cd $R/verif
@@ -20,7 +23,7 @@ ARGS="$PROP --tier $TIER"
 PLSV_BUILD=$R/build PLSV_JOBS=${PLSV_JOBS:-4} ./check $ARGS > $R/log.txt 2>&1
 RC=$?
 {
-  echo "=== $(date -u +%FT%TZ) seed=$SEED check=\"./check $ARGS\" exit=$RC (scratch copy: repo worktree + patch)"
+  echo "=== $(date -u +%FT%TZ) seed=$SEED check=\"./check $ARGS\" exit=$RC (scratch copy: repo worktree of $(git -C /repo rev-parse --short HEAD) + patch$FUZZ)"
   grep -E "^(VIOLATION|KNOWN-FINDING|INCONCLUSIVE|UNDECIDED|NOTE)|^  harness=|^\[" $R/log.txt | cut -c1-400
 } >> $S/runs.log
 mkdir -p $S/witness
